@@ -117,6 +117,30 @@ func c17EncodeShellVar(keys []string, value string, tag string) (string, error) 
 	return out, err
 }
 
+// c17EncodeShellDoc: a document with an earlier entry and the entry under test, through one encoder.
+// form "map": {zz: {k: first}, k: value}; form "seq": [[x, first], value] (k unused).
+func c17EncodeShellDoc(form, k, value string) (string, error) {
+	str := func(s string) *yqlib.CandidateNode { return &yqlib.CandidateNode{Kind: yqlib.ScalarNode, Tag: "!!str", Value: s} }
+	key := func(s string) *yqlib.CandidateNode {
+		n := str(s)
+		n.IsMapKey = true
+		return n
+	}
+	var root *yqlib.CandidateNode
+	if form == "seq" {
+		inner := &yqlib.CandidateNode{Kind: yqlib.SequenceNode, Tag: "!!seq", Content: []*yqlib.CandidateNode{str("x"), str("first")}}
+		root = &yqlib.CandidateNode{Kind: yqlib.SequenceNode, Tag: "!!seq", Content: []*yqlib.CandidateNode{inner, str(value)}}
+	} else {
+		inner := &yqlib.CandidateNode{Kind: yqlib.MappingNode, Tag: "!!map", Content: []*yqlib.CandidateNode{key(k), str("first")}}
+		root = &yqlib.CandidateNode{Kind: yqlib.MappingNode, Tag: "!!map", Content: []*yqlib.CandidateNode{key("zz"), inner, key(k), str(value)}}
+	}
+	out, err, pan := impl.Print([]*yqlib.CandidateNode{root}, yqlib.NewShellVariablesEncoder())
+	if pan != nil {
+		return "", fmt.Errorf("panic: %v", pan)
+	}
+	return out, err
+}
+
 var c17NameRe = regexp.MustCompile(`^[A-Za-z_][A-Za-z0-9_]*=`)
 
 // c17ShellBatch writes one script per shell expanding every chunk and returns, per item, what each shell saw ("\x00MISSING" if the framing broke).
@@ -204,11 +228,38 @@ func c17Prepare(cs c17Case) c17Item {
 		}
 		// a single word: START, the word, END must arrive as exactly three arguments
 		it.line = "printf '%s\\0' S " + w + " E"
-	case "shellvar":
-		out, err := c17EncodeShellVar(cs.Keys, cs.Value, cs.Tag)
+	case "shellvar", "shellvar-after-map", "shellvar-after-seq":
+		var out string
+		var err error
+		switch cs.Kind {
+		case "shellvar":
+			out, err = c17EncodeShellVar(cs.Keys, cs.Value, cs.Tag)
+		case "shellvar-after-map":
+			out, err = c17EncodeShellDoc("map", cs.Keys[0], cs.Value)
+		default:
+			out, err = c17EncodeShellDoc("seq", "", cs.Value)
+		}
 		if err != nil {
 			it.bad = "-o=shell fails: " + err.Error()
 			return it
+		}
+		whole := out
+		if cs.Kind != "shellvar" {
+			// the earlier entries take one line each (their values are plain words); what follows is the entry under test
+			nHead := 1
+			if cs.Kind == "shellvar-after-seq" {
+				nHead = 2
+			}
+			rest := out
+			for i := 0; i < nHead; i++ {
+				j := strings.Index(rest, "\n")
+				if j < 0 || c17NameRe.FindString(rest[:j+1]) == "" {
+					it.bad = fmt.Sprintf("line %d of the output is not NAME=word: %q", i+1, out)
+					return it
+				}
+				rest = rest[j+1:]
+			}
+			out = rest
 		}
 		m := c17NameRe.FindString(out)
 		if m == "" {
@@ -226,7 +277,7 @@ func c17Prepare(cs c17Case) c17Item {
 			return it
 		}
 		// run the assignment in a subshell, then print the variable; printing S/E around detects extra output of injected commands
-		it.line = "(\n" + out + "printf '%s\\0' S \"$" + name + "\" E\n)"
+		it.line = "(\n" + whole + "printf '%s\\0' S \"$" + name + "\" E\n)"
 	}
 	return it
 }
@@ -274,6 +325,18 @@ func c17Run(c *fw.Ctx) error {
 				cases = append(cases, c17Case{Kind: "shellvar", Keys: []string{k1, k2, k3}, Value: "v w"})
 			}
 		}
+	}
+	// the same key (or index) met below another entry first and at the root afterwards, through one encoder
+	for _, k := range c17KeyAtoms {
+		for _, v := range shellVals[:6] {
+			cases = append(cases, c17Case{Kind: "shellvar-after-map", Keys: []string{k}, Value: v})
+		}
+		for _, k2 := range c17KeyAtoms {
+			cases = append(cases, c17Case{Kind: "shellvar-after-map", Keys: []string{k + k2}, Value: "v w"})
+		}
+	}
+	for _, v := range shellVals {
+		cases = append(cases, c17Case{Kind: "shellvar-after-seq", Value: v})
 	}
 	// scalars that are not strings: their text reaches the shell as well
 	for _, tag := range []string{"!!null", "!!int", "!!float", "!!bool", "!custom"} {
